@@ -313,8 +313,8 @@ def impl_traj(case):
         out = dict(rows=[[frac(v) for v in r] for r in vals])
         if case.get("second"):
             # the same model again in the SAME process (no cache reset in between), same step settings, other parameter values and inputs;
-            # python backends re-use the file name as a user would, Fortran gets a fresh one (re-using it is finding D29 of C13)
-            vals2 = one(dict(case, **case["second"]), fn if case["backend"] != "fortran" else _fname("t"))
+            # the file name is re-used as a user would (safe on Fortran too since fix D96: the extension module is named per source hash)
+            vals2 = one(dict(case, **case["second"]), fn)
             out["rows2"] = [[frac(v) for v in r] for r in vals2]
         return out
     finally:
@@ -1164,7 +1164,7 @@ def check(ctx):
         key = c["kind"] + ("/support" if c.get("support") else "")
         kinds[key] = kinds.get(key, 0) + 1
     ctx.note(f"E1: {len(cases)} cases {kinds}; real-vs-Impl mismatches {len(badI)}, real-vs-Spec mismatches {len(badS)} "
-             f"(outside the guards heun_time_free / fortran_pi_free: {len([i for i in badS if i in guard_viol])}), crashes {len(crashed)}; support: {notes}")
+             f"(outside the guard heun_time_free: {len([i for i in badS if i in guard_viol])}), crashes {len(crashed)}; support: {notes}")
     if (notes["float32_max_rel_err"] > notes["float32_tolerance"] or notes["adaptive_max_rel_diff"] > notes["adaptive_tolerance"]
             or notes["transcendental_max_rel_diff"] > notes["transcendental_tolerance"]):
         ctx.note("SUPPORT stream outside its tolerance (does not decide the property; look at it): " + json.dumps(notes))
@@ -1218,7 +1218,7 @@ def check(ctx):
                                 "BaseBackend._solve_heun (default, fortran) evaluates both stages at t. The two agree exactly for autonomous systems (C02_heun_partial) and differ for "
                                 "time-dependent inputs; run_spec follows the default backend's convention only to have one reference - which backend deviates is a maintainer decision",
                                 "D61 (repaired): torch compiles coupling EdgeTemplates since fix_D61; corpus/C02/D61_torch_wsum.json is the regression case (torch rows = Spec rows)",
-                                "guard fortran_pi_free (finding D1xx-fortran-pi, switch Backends.fixed_fortran_pi = false): the Fortran module constant PI is float32(pi); "
-                                "the stream demands exactly 13176795/4194304 * k there and numpy.pi * k on the other backends",
+                                "D108 (repaired, switch Backends.fixed_fortran_pi = true): the Fortran module constant PI is numpy.pi bit for bit; corpus/C02/reg_D108_fortran_pi.json "
+                                "is the regression case; `E` is checked on default/torch/jax only (no Fortran module constant: proposed_fix_C02_fortran_E.diff)",
                                 "delayed edges: no Spec in this property (C09); only exact agreement default = torch = fortran, vectorized = scalar, and the jax refusal are checked",
                                 "IEEE rounding is outside the model: the model computes in Qc"])
